@@ -11,6 +11,48 @@ def repo_hook_commits():
         return []
 
 CHECKS = {
+    "C01": dict(
+        technique="TLC model checking of the protocol-level soundness model (Stark.tla: prover strategies x declarations x luck events, guard removal counterexamples); TLC-generated recipes instantiated by an in-harness STARK prover for a toy AIR and run on the real StarkProof::verify; TLC trace validation of whole-verifier traces (Trace_Stark)",
+        level="model_checking",
+        text="The model shows that acceptance without a satisfying trace needs a negligible event exactly when the four guards hold; every strategy x declaration is executed against the real generic verifier on random configurations and must give the model's verdict; every recorded run must be a behaviour of the whole-verifier trace specification (strict Fiat-Shamir order, OODS pair = opened pair, ConfigOK at 'config ok', acceptance only after every decommitment).",
+        note="The STARK soundness theorem's probability bound is not re-proved; the toy AIR drives the generic verifier code, the seven real layouts are bound by C03/C16.",
+        ref="6/C01"),
+    "C02": dict(
+        technique="TLC check of a data-flow model of the protocol (every position class bound by a check's transitive support or a length guard); mutation of every position of accepted proofs (toy: exhaustive; shipped: sampled per class in quick, exhaustive in thorough) replayed on the real verifier",
+        level="model_checking",
+        text="Every position class x mutation kind of the model is exercised on real accepted proofs and the mutant must not be accepted; 'append' is the only tolerated kind.",
+        note="One known finding: n_queries+1 whose extra sample collides (known_findings.json). Hash collision resistance; PoW nonce replacement passes with probability 2^-n_bits.",
+        ref="6/C02"),
+    "C03": dict(
+        technique="TLC enumeration of the (build, proof kind) acceptance matrix; every shipped proof + fixture verified as each of 7 layouts under 2 (8 in thorough) hash/Stone builds; TLC trace validation incl. equality with Stone's logged challenges",
+        level="model_checking",
+        text="Verdict per (proof, build, layout) must equal the model; returned hashes = Pedersen chains of the file's public memory read independently; serde round trip; traces validated by Trace_Stark.",
+        note="The 25 files are taken to be honest Stone outputs; exhaustive over the finite set only in the thorough tier (all 8 builds).",
+        ref="6/C03"),
+    "C13": dict(
+        technique="TLC exhaustive pairwise injectivity check of the seed term over a small space (both Stone versions); terms replayed on the real get_hash; field-by-field perturbation of the shipped public inputs with partition + reference-value check",
+        level="model_checking",
+        text="Seed term equality <=> public input equality on all 389k ordered pairs per Stone version; the real get_hash equals the term on every small input and separates every perturbed real input.",
+        note="Pedersen/Poseidon as free constructors.",
+        ref="6/C13"),
+    "C14": dict(
+        technique="TLC evaluation of the validity predicate (integer reading) and of the main-page rule on a labelled deviation catalogue; labels instantiated per real layout and replayed on validate_public_input / verify_public_input",
+        level="model_checking",
+        text="Each deviation label has the model's verdict on all 7 layouts; main-page perturbations are rejected or hashed by address; returned hashes re-computed independently.",
+        note="Layout row ratios / cells per instance from the Cairo layout definitions; dynamic layout: deviations that change the trace size are out of the model.",
+        ref="6/C14"),
+    "C17": dict(
+        technique="TLC check of the loop-bound model (declared-number magnitudes, guard removal counterexamples); extreme-value recipes on accepted proofs run on the real verifier under an event budget (fuel in the hooks) and a wall clock",
+        level="model_checking",
+        text="Every loop is bounded by supplied data, a constant, or a guarded declared number on the model; ~14k recipes per build finish within 40 events per proof value.",
+        note="Work counted in hooked events; time/memory measured.",
+        ref="6/C17"),
+    "C18": dict(
+        technique="TLC exhaustive check of the shape-level totality model (guards establish every access precondition; guard removal counterexamples); structural / extreme-value recipes on accepted proofs run on verify, StarkConfig::validate, validate_public_input, verify_public_input under catch_unwind",
+        level="model_checking",
+        text="1.6M shapes: no undefined access with the six guards; ~14k recipes per build on 7 layouts + toy: no panic.",
+        note="panic=unwind harness; aborts would surface as tool errors.",
+        ref="6/C18"),
     "C04": dict(
         technique="TLC exhaustive model checking of the decommitment queue machine over symbolic hash terms; TLC-generated instances replayed on vector_commitment_decommit; TLC trace validation of hooked node events",
         level="model_checking",
